@@ -495,6 +495,11 @@ pub fn dispatch(op: &[Value]) -> Result<Value, String> {
         "h_unicode_entries" => unicode_entries(&s(op, 1)),
         "h_unicode_ast" => unicode_ast(&s(op, 1)),
         "h_rules_ast" => rules_ast(&s(op, 1)),
+        "v_route_dump" => { libmathcat::verif::braille::want_route_dump(b(op, 1)); Ok(Value::Null) }
+        "v_take_route_dump" => Ok(match libmathcat::verif::braille::take_route_dump() {
+            Some((mid, blen, nodes)) => json!({"math": mid, "blen": blen, "nodes": nodes.into_iter().map(|(i, l, s_, e, x, k)| json!([i, l, s_, e, x, k])).collect::<Vec<_>>()}),
+            None => Value::Null,
+        }),
         "h_rules_tast" => rules_tast(&s(op, 1)),
         "h_set_mathml_reusing_last" => set_mathml_reusing_last(&s(op, 1), &s(op, 2)),
         "v_trace_eval" => { libmathcat::verif::speech::trace_eval(b(op, 1)); Ok(Value::Null) }
